@@ -20,3 +20,8 @@ claim("C08",
       "explicit-state BFS closure of each controller's register machine on the real Mapper against a reference bank model, plus exhaustive write sweeps",
       "For MBC1, MBC2, MBC3 and MBC5 and every declared ROM size up to the controller's documented maximum, the reachable register states are closed breadth-first under writes of values to 14 control-region representatives (all 256 values at the largest size and in the thorough tier; a boundary value set otherwise); after each write both ROM windows are identified by unique page signatures and compared with the documented bank arithmetic (5+2 bit / mode / 0->1 / modulo). Every supported cartridge-type byte (incl. ROM-only) additionally gets fixed-order sweeps of all 3,584 (address,value) writes, and every page is re-read byte by byte afterwards.",
       "Trusted: ref/cart.go (Pan Docs MBC sections), the snapshot hook VMBCSave/VMBCLoad (copies the controller struct). State key = visible page ids + model registers; hidden implementation state outside the key is additionally exercised by the long sweeps.")
+
+claim("C09",
+      "exhaustive depth-bounded enumeration of RAM enable/bank/mode/write sequences on the real Mapper against a reference RAM model",
+      "For MBC1, MBC3 and MBC5 with every claimed RAM-size code (none, 8, 32, 128, 64 KiB), MBC2 and ROM-only, every sequence of up to 3 (thorough 4) events over {6 enable values at 2 addresses, every bank select, MBC1 mode, 4 values written to 6 window addresses} is executed on the real Mapper; after each event six window addresses are compared with the reference (gating, bank modulo, retention across disable/bank switches, MBC2 nibble mirror) and at each leaf DumpRAM is compared with exactly the stored bytes.",
+      "Trusted: ref/cart.go, the snapshot hook. RAM-size code 1 (2 KiB) and MBC3 clock selectors are outside this check (C10/C11).")
